@@ -4,6 +4,8 @@ pub mod c02;
 pub mod c03;
 pub mod c05;
 pub mod c10;
+pub mod c13;
+pub mod c14;
 
 use crate::engine::*;
 use serde_json::Value as J;
@@ -14,6 +16,8 @@ pub fn run(id: &str, cfg: &Cfg) -> Option<Report> {
         "C03" => c03::run(cfg),
         "C05" => c05::run(cfg),
         "C10" => c10::run(cfg),
+        "C13" => c13::run(cfg),
+        "C14" => c14::run(cfg),
         _ => return None,
     })
 }
@@ -24,6 +28,8 @@ pub fn replay(id: &str, case: &J) -> Option<i32> {
         "C03" => c03::replay(case),
         "C05" => c05::replay(case),
         "C10" => c10::replay(case),
+        "C13" => c13::replay(case),
+        "C14" => c14::replay(case),
         _ => return None,
     })
 }
